@@ -271,8 +271,10 @@ impl StdInWorker for ScanStdin {
   ) -> Result<Vec<P::Processed>> {
     use ast_grep_core::Language;
     let lang = self.rules[0].language;
-    // a turned-off rule reports nothing, same as scanning files
-    let enabled = |r: &&RuleConfig<SgLang>| !matches!(r.severity, Severity::Off);
+    // a turned-off rule reports nothing, same as scanning files; neither does a rule written
+    // for another language than the one stdin is parsed as: its kind ids mean nothing here
+    let enabled =
+      |r: &&RuleConfig<SgLang>| r.language == lang && !matches!(r.severity, Severity::Off);
     let combined = CombinedScan::new(self.rules.iter().filter(enabled).collect());
     let grep = lang.ast_grep(src);
     let path = Path::new("STDIN");
